@@ -223,6 +223,34 @@ def check_raw(recipe) -> list[Fail]:
                 if raised is None:
                     fails.append(Fail("raw:put-swallowed-io-error", f"step {step}"))
                     break
+            elif name == "copy":
+                # the handle object is pickled / copied (what joblib, multiprocessing and copy do with it) and the COPY is opened, looked at
+                # and closed.  Whatever the copy is able to do - nothing the existing handles show, and nothing in the file, changes
+                if h.obj is None:
+                    continue
+                if (not h.open) and h.mode == "a" and writer_open():
+                    continue   # re-opening the copy would make a second concurrent writer: outside the claim
+                if h.open and h.mode == "a":
+                    try:
+                        h.obj._stream.flush()     # (only whole records in the file while a second object looks at it)
+                    except Exception:
+                        pass
+                import copy as _copy
+                import pickle as _pickle
+                try:
+                    cp = [lambda o: _pickle.loads(_pickle.dumps(o)), _copy.copy, _copy.deepcopy][op[2] % 3](h.obj)
+                except Exception:
+                    continue
+                try:
+                    cp.open()
+                    list(cp.keys())
+                except Exception:
+                    pass
+                finally:
+                    try:
+                        cp.close()
+                    except Exception:
+                        pass
             elif name == "get":
                 if h.obj is None:
                     continue
@@ -352,6 +380,7 @@ _EXH = [
     ["put", 0, 0, 8], ["put", 0, 1, 0], ["put", 0, 4, 1], ["put", 0, 5, 8],
     ["put", 1, 0, 2], ["put", 1, 1, 8], ["put", 1, 5, 4], ["put", 1, 4, 1], ["put", 0, 6, 1],
     ["get", 0, 0], ["get", 1, 1],      # a read between two writes moves the stream position
+    ["copy", 0, 0],                    # the handle is pickled; the copy is opened, listed, closed
 ]
 
 
@@ -374,6 +403,7 @@ def strat_raw(tier):
         st.tuples(st.just("put"), h, st.integers(0, len(KEYS) - 1), st.integers(0, len(VALS) - 1)).map(list),
         st.tuples(st.just("put"), h, st.integers(0, len(KEYS) - 1), st.integers(0, 2)).map(list),
         st.tuples(st.just("get"), h, st.integers(0, len(KEYS) - 1)).map(list),
+        st.tuples(st.just("copy"), h, st.integers(0, 2)).map(list),
         st.tuples(st.just("put_ioerror"), h, st.integers(0, len(KEYS) - 1), st.integers(0, 2), st.integers(0, 11)).map(list),
     )
     return st.fixed_dictionaries(
@@ -623,7 +653,7 @@ LEGS = [
     Leg(
         "raw_exh", check_raw, classify_raw, enumerate=enum_raw, exhaustive=True,
         shards={"quick": 32, "thorough": 64},
-        rule="all op sequences of length<=4 (quick) / <=5 (thorough) over 18 letters {close,open r,open a}x{h0,h1} + open() without a mode + 2 gets + 9 puts (dup, 256-byte key, empty key, 9 kB values), file created with mode x or w; non-trivial = append-reopen after a put, or two handles with different views, or a failed put; distinct = op-sequence hash",
+        rule="all op sequences of length<=4 (quick) / <=5 (thorough) over 19 letters {close,open r,open a}x{h0,h1} + open() without a mode + 2 gets + handle pickled and the copy opened + 9 puts (dup, 256-byte key, empty key, 9 kB values), file created with mode x or w; non-trivial = append-reopen after a put, or two handles with different views, or a failed put; distinct = op-sequence hash",
     ),
     Leg(
         "raw_rand", check_raw, classify_raw, strategy=strat_raw,
